@@ -6,7 +6,8 @@ namespace JrsVerif.Arr
 
 /-- view `v` is observationally the list `xs` -/
 def Good (v : View) (xs : List Int) : Prop :=
-  len v = xs.length ∧ ∀ i, get v i = specGet xs i
+  len v = xs.length ∧ (∀ i, get v i = specGet xs i) ∧ (∀ i, getLazy v i = specGet xs i) ∧
+    (isCheap v = true → ∀ i, getCheap v i = specGet xs i)
 
 theorem specGet_lt {xs : List Int} {i : Nat} (h : i < xs.length) : specGet xs i = .val xs[i] := by
   simp [specGet, h]
@@ -14,10 +15,11 @@ theorem specGet_lt {xs : List Int} {i : Nat} (h : i < xs.length) : specGet xs i 
 theorem specGet_ge {xs : List Int} {i : Nat} (h : xs.length ≤ i) : specGet xs i = .oob := by
   simp [specGet, h]
 
-theorem good_vec (xs : List Int) : Good (.vec xs) xs := by
-  constructor
-  · rfl
+theorem good_vec (xs : List Int) (c : Bool) : Good (.vec xs c) xs := by
+  refine ⟨rfl, ?_, ?_, ?_⟩
   · intro i; simp [get, specGet]
+  · intro i; simp [getLazy, specGet]
+  · intro hc i; simp only [isCheap] at hc; subst hc; simp [getCheap, specGet]
 
 /-! #### everyNth -/
 
@@ -89,14 +91,43 @@ theorem getIdx_le (p : Option Int) (n d : Nat) (hd : d ≤ n) : getIdx p n d ≤
     · exact Nat.min_le_right _ _
 
 theorem good_empty : Good emptyView [] := by
-  constructor
+  refine ⟨?_, ?_, ?_, ?_⟩
   · simp [emptyView, len, rangeLen]
   · intro i; simp [emptyView, get, specGet]; omega
+  · intro i; simp [emptyView, getLazy, specGet]; omega
+  · intro _ i; simp [emptyView, getCheap, specGet]; omega
+
+/-- the index translation of `SliceArray` (bound check against its own length, then
+    `from + step * i`) over ANY accessor `g` of the inner array that agrees with the list -/
+theorem slice_idx {xs : List Int} {g : Nat → R} (hg : ∀ j, g j = specGet xs j) (f t st : Nat)
+    (hst : 0 < st) (htn : t ≤ xs.length) (i : Nat) :
+    (if i ≥ (t - f + st - 1) / st then R.oob else g (f + st * i)) =
+      specGet (everyNth st 0 ((xs.take t).drop f)) i := by
+  have hlen : ((xs.take t).drop f).length = t - f := by
+    simp [List.length_drop, List.length_take, Nat.min_eq_left htn]
+  by_cases hi : i ≥ (t - f + st - 1) / st
+  · simp only [hi, ↓reduceIte]
+    rw [specGet_ge]; rw [everyNth_length st hst, hlen]; simpa using hi
+  · simp only [hi, ↓reduceIte]
+    rw [hg]
+    simp only [specGet]
+    rw [everyNth_getElem? st hst]
+    have hlt : i * st < t - f := by
+      have h1 : i < (t - f + st - 1) / st := Nat.lt_of_not_ge hi
+      have h2 : (i + 1) * st ≤ t - f + st - 1 := by
+        have := (Nat.le_div_iff_mul_le hst).mp h1
+        exact this
+      rw [Nat.add_mul] at h2; omega
+    have hidx : f + st * i < t := by rw [Nat.mul_comm]; omega
+    simp only [Nat.zero_add, List.getElem?_drop, List.getElem?_take]
+    have e1 : f + i * st = f + st * i := by rw [Nat.mul_comm]
+    rw [e1]
+    simp [hidx]
 
 theorem good_slice {v : View} {xs : List Int} (h : Good v xs) (s e : Option Int)
     (step : Option Nat) (hst : ∀ k, step = some k → 0 < k) :
     Good (mkSlice v s e step) (sliceSpec xs s e step) := by
-  obtain ⟨hl, hg⟩ := h
+  obtain ⟨hl, hg, hgl, hgc⟩ := h
   have hst' : 0 < step.getD 1 := by
     cases step with
     | none => simp
@@ -115,31 +146,15 @@ theorem good_slice {v : View} {xs : List Int} (h : Good v xs) (s e : Option Int)
       apply List.eq_nil_of_length_eq_zero; rw [hlen]; omega
     rw [this]; simpa [everyNth] using good_empty
   · simp only [hfe, ↓reduceIte]
-    constructor
+    refine ⟨?_, ?_, ?_, ?_⟩
     · simp only [len]
       rw [everyNth_length st hst', hlen]; simp
-    · intro i
-      simp only [get]
-      by_cases hi : i ≥ (t - f + st - 1) / st
-      · simp only [hi, ↓reduceIte]
-        rw [specGet_ge]; rw [everyNth_length st hst', hlen]; simpa using hi
-      · simp only [hi, ↓reduceIte]
-        rw [hg]
-        simp only [specGet]
-        rw [everyNth_getElem? st hst']
-        have hlt : i * st < t - f := by
-          have h1 : i < (t - f + st - 1) / st := Nat.lt_of_not_ge hi
-          have h2 : (i + 1) * st ≤ t - f + st - 1 := by
-            have := (Nat.le_div_iff_mul_le hst').mp h1
-            exact this
-          rw [Nat.add_mul] at h2; omega
-        have hidx : f + st * i < t := by rw [Nat.mul_comm]; omega
-        simp only [Nat.zero_add, List.getElem?_drop, List.getElem?_take]
-        have e1 : f + i * st = f + st * i := by rw [Nat.mul_comm]
-        rw [e1]
-        simp [hidx]
+    · intro i; simp only [get]; exact slice_idx hg f t st hst' htn i
+    · intro i; simp only [getLazy]; exact slice_idx hgl f t st hst' htn i
+    · intro hc i; simp only [isCheap] at hc
+      simp only [getCheap]; exact slice_idx (hgc hc) f t st hst' htn i
 
-/-! #### materialize -/
+/-! #### collecting iterators (`iter`, `iter_lazy`, `iter_cheap`) -/
 
 theorem mapM_range_aux (xs : List Int) (f : Nat → Option Int) :
     ∀ (pre : List Int), (∀ i, i < xs.length → f (pre.length + i) = some xs[i]!) →
@@ -158,16 +173,41 @@ theorem mapM_range_aux (xs : List Int) (f : Nat → Option Int) :
     simp [List.range'_succ, List.mapM_cons, h0] at this ⊢
     rw [this]; rfl
 
-theorem materialize_good {v : View} {xs : List Int} (h : Good v xs) : materialize v = some xs := by
-  obtain ⟨hl, hg⟩ := h
-  unfold materialize
-  rw [hl, List.range_eq_range']
+
+theorem collect_good {xs : List Int} {g : Nat → R} (hg : ∀ i, g i = specGet xs i) :
+    collect g xs.length = some xs := by
+  unfold collect
+  rw [List.range_eq_range']
   apply mapM_range_aux xs _ []
   intro i hi
   simp only [List.length_nil, Nat.zero_add, hg, specGet_lt hi]
   simp [hi]
 
+theorem materialize_good {v : View} {xs : List Int} (h : Good v xs) : materialize v = some xs := by
+  unfold materialize; rw [h.1]; exact collect_good h.2.1
+
+theorem materializeLazy_good {v : View} {xs : List Int} (h : Good v xs) :
+    materializeLazy v = some xs := by
+  unfold materializeLazy; rw [h.1]; exact collect_good h.2.2.1
+
+theorem iterCheap_good {v : View} {xs : List Int} (h : Good v xs) :
+    iterCheap v = if isCheap v then some (some xs) else none := by
+  unfold iterCheap
+  split
+  · rename_i hc; rw [h.1, collect_good (h.2.2.2 hc)]
+  · rfl
+
 /-! #### extended -/
+
+/-- the split of `ExtendedArray` over any pair of accessors agreeing with the two lists -/
+theorem ext_idx {xs ys : List Int} {ga gb : Nat → R} (ha : ∀ j, ga j = specGet xs j)
+    (hb : ∀ j, gb j = specGet ys j) (i : Nat) :
+    (if xs.length > i then ga i else gb (i - xs.length)) = specGet (xs ++ ys) i := by
+  by_cases hi : xs.length > i
+  · simp only [hi, ↓reduceIte, ha, specGet]
+    rw [List.getElem?_append_left (by omega)]
+  · simp only [hi, ↓reduceIte, hb, specGet]
+    rw [List.getElem?_append_right (by omega)]
 
 theorem good_ext {a b : View} {xs ys : List Int} (ha : Good a xs) (hb : Good b ys) :
     Good (mkExt a b) (xs ++ ys) := by
@@ -180,34 +220,37 @@ theorem good_ext {a b : View} {xs ys : List Int} (ha : Good a xs) (hb : Good b y
     · have : ys = [] := List.eq_nil_of_length_eq_zero (by omega)
       simpa [this] using ha
     · split
-      · constructor
+      · -- above the threshold: linked ExtendedArray
+        refine ⟨?_, ?_, ?_, ?_⟩
         · simp [len, hla, hlb]
-        · intro i
-          simp only [get]
-          by_cases hi : len a > i
-          · simp only [hi, ↓reduceIte, ha.2]
-            simp only [specGet]
-            rw [List.getElem?_append_left (by omega)]
-          · simp only [hi, ↓reduceIte, hb.2]
-            simp only [specGet]
-            rw [List.getElem?_append_right (by omega), hla]
-      · rw [materialize_good ha, materialize_good hb]
-        exact good_vec _
+        · intro i; simp only [get, hla]; exact ext_idx ha.2.1 hb.2.1 i
+        · intro i; simp only [getLazy, hla]; exact ext_idx ha.2.2.1 hb.2.2.1 i
+        · intro hc i
+          simp only [isCheap, Bool.and_eq_true] at hc
+          simp only [getCheap, hla]; exact ext_idx (ha.2.2.2 hc.1) (hb.2.2.2 hc.2) i
+      · -- copy: through iter_cheap when both are cheap, through iter_lazy otherwise
+        rw [iterCheap_good ha, iterCheap_good hb, materializeLazy_good ha, materializeLazy_good hb]
+        cases isCheap a <;> cases isCheap b <;> exact good_vec _ _
 
 /-! #### reverse -/
 
+theorem rev_idx {xs : List Int} {g : Nat → R} (hg : ∀ j, g j = specGet xs j) (i : Nat) :
+    (if i ≥ xs.length then R.oob else g (xs.length - i - 1)) = specGet xs.reverse i := by
+  by_cases hi : i ≥ xs.length
+  · simp only [hi, ↓reduceIte]; rw [specGet_ge]; simpa using hi
+  · simp only [hi, ↓reduceIte, hg, specGet]
+    rw [List.getElem?_reverse (by omega)]
+    have : xs.length - i - 1 = xs.length - 1 - i := by omega
+    rw [this]
+
 theorem good_rev {v : View} {xs : List Int} (h : Good v xs) : Good (mkRev v) xs.reverse := by
-  obtain ⟨hl, hg⟩ := h
-  constructor
+  obtain ⟨hl, hg, hgl, hgc⟩ := h
+  refine ⟨?_, ?_, ?_, ?_⟩
   · simp [mkRev, len, hl]
-  · intro i
-    simp only [mkRev, get, hl]
-    by_cases hi : i ≥ xs.length
-    · simp only [hi, ↓reduceIte]; rw [specGet_ge]; simpa using hi
-    · simp only [hi, ↓reduceIte, hg, specGet]
-      rw [List.getElem?_reverse (by omega)]
-      have : xs.length - i - 1 = xs.length - 1 - i := by omega
-      rw [this]
+  · intro i; simp only [mkRev, get, hl]; exact rev_idx hg i
+  · intro i; simp only [mkRev, getLazy, hl]; exact rev_idx hgl i
+  · intro hc i; simp only [mkRev, isCheap] at hc
+    simp only [mkRev, getCheap, hl]; exact rev_idx (hgc hc) i
 
 /-! #### repeat -/
 
@@ -231,44 +274,61 @@ theorem repSpec_getElem? (xs : List Int) (hx : 0 < xs.length) (n : Nat) :
       congr 1
       exact (Nat.mod_eq_sub_mod (by omega)).symm
 
+theorem rep_idx {xs : List Int} {g : Nat → R} (hg : ∀ j, g j = specGet xs j) (n i : Nat) :
+    (if i ≥ xs.length * n then R.oob else if xs.length = 0 then R.panic else g (i % xs.length)) =
+      specGet (repSpec xs n) i := by
+  by_cases hi : i ≥ xs.length * n
+  · simp only [hi, ↓reduceIte]; rw [specGet_ge]; rw [repSpec_length]; exact hi
+  · simp only [hi, ↓reduceIte]
+    have hpos : 0 < xs.length := by
+      rcases Nat.eq_zero_or_pos xs.length with h0 | h0
+      · rw [h0] at hi; simp at hi
+      · exact h0
+    have : xs.length ≠ 0 := by omega
+    simp only [this, ↓reduceIte, hg, specGet]
+    rw [repSpec_getElem? xs hpos n i (by omega)]
+
 theorem good_rep {v : View} {xs : List Int} (h : Good v xs) (n : Nat) :
     Good (mkRep v n) (repSpec xs n) := by
-  obtain ⟨hl, hg⟩ := h
-  constructor
+  obtain ⟨hl, hg, hgl, hgc⟩ := h
+  refine ⟨?_, ?_, ?_, ?_⟩
   · simp [mkRep, len, hl, repSpec_length]
-  · intro i
-    simp only [mkRep, get, hl]
-    by_cases hi : i ≥ xs.length * n
-    · simp only [hi, ↓reduceIte]; rw [specGet_ge]; rw [repSpec_length]; exact hi
-    · simp only [hi, ↓reduceIte]
-      have hpos : 0 < xs.length := by
-        rcases Nat.eq_zero_or_pos xs.length with h0 | h0
-        · rw [h0] at hi; simp at hi
-        · exact h0
-      have : xs.length ≠ 0 := by omega
-      simp only [this, ↓reduceIte, hg, specGet]
-      rw [repSpec_getElem? xs hpos n i (by omega)]
+  · intro i; simp only [mkRep, get, hl]; exact rep_idx hg n i
+  · intro i; simp only [mkRep, getLazy, hl]; exact rep_idx hgl n i
+  · intro hc i; simp only [mkRep, isCheap] at hc
+    simp only [mkRep, getCheap, hl]; exact rep_idx (hgc hc) n i
 
 /-! #### range -/
 
+theorem range_idx (a b : Int) (i : Nat) :
+    (if a + (i : Int) ≤ b then R.val (a + i) else R.oob) = specGet (rangeSpec a b) i := by
+  simp only [rangeSpec, specGet]
+  by_cases hi : a + (i : Int) ≤ b
+  · simp only [hi, ↓reduceIte]
+    have : i < (b - a + 1).toNat := by omega
+    simp [this]
+  · simp only [hi, ↓reduceIte]
+    have : ¬ i < (b - a + 1).toNat := by omega
+    simp [this]
+
+/-- `RangeArray` on its domain (`i32` ends, `start ≤ end + 1`) is the list `start..=end` -/
+theorem good_range_dom (a b : Int) (ha : I32 a) (hb : I32 b) (hab : a ≤ b + 1) :
+    Good (.range a b) (rangeSpec a b) := by
+  obtain ⟨ha1, ha2⟩ := ha; obtain ⟨hb1, hb2⟩ := hb
+  refine ⟨?_, ?_, ?_, ?_⟩
+  · simp only [len, rangeLen, rangeSpec, List.length_map, List.length_range]
+    rw [Int.emod_eq_of_lt (by omega) (by omega)]
+  · intro i; simp only [get]; exact range_idx a b i
+  · intro i; simp only [getLazy]; exact range_idx a b i
+  · intro _ i; simp only [getCheap]; exact range_idx a b i
+
 theorem good_range (a b : Int) (ha : -(2 ^ 31 : Int) ≤ a ∧ a < 2 ^ 31)
     (hb : -(2 ^ 31 : Int) ≤ b ∧ b < 2 ^ 31) : Good (mkRange a b) (rangeSpec a b) := by
-  unfold mkRange rangeSpec
+  unfold mkRange
   split
   · have : (b - a + 1).toNat = 0 := by omega
-    rw [this]; simpa using good_empty
-  · constructor
-    · simp only [len, rangeLen, List.length_map, List.length_range]
-      rw [Int.emod_eq_of_lt (by omega) (by omega)]
-    · intro i
-      simp only [get, specGet]
-      by_cases hi : a + (i : Int) ≤ b
-      · simp only [hi, ↓reduceIte]
-        have : i < (b - a + 1).toNat := by omega
-        simp [this]
-      · simp only [hi, ↓reduceIte]
-        have : ¬ i < (b - a + 1).toNat := by omega
-        simp [this]
+    simp only [rangeSpec, this]; simpa using good_empty
+  · exact good_range_dom a b ha hb (by omega)
 
 /-! #### map -/
 
@@ -291,17 +351,28 @@ theorem mapIdxSpec_getElem? (wi : Bool) (xs : List Int) :
 
 theorem good_map {v : View} {xs : List Int} (h : Good v xs) (wi : Bool) :
     Good (mkMap v wi) (mapIdxSpec wi 0 xs) := by
-  obtain ⟨hl, hg⟩ := h
-  constructor
-  · simp [mkMap, len, hl, mapIdxSpec_length]
-  · intro i
-    simp only [mkMap, get, hl]
+  obtain ⟨hl, _, hgl, _⟩ := h
+  have key : ∀ i, (if i ≥ xs.length then R.oob else mapApply wi i (getLazy v i)) =
+      specGet (mapIdxSpec wi 0 xs) i := by
+    intro i
     by_cases hi : i ≥ xs.length
     · simp only [hi, ↓reduceIte]; rw [specGet_ge]; rw [mapIdxSpec_length]; exact hi
-    · simp only [hi, ↓reduceIte, hg]
+    · simp only [hi, ↓reduceIte, hgl]
       have hi' : i < xs.length := by omega
       simp only [specGet, mapIdxSpec_getElem?, Nat.zero_add]
-      simp [hi']
+      simp [hi', mapApply]
+  refine ⟨?_, ?_, ?_, ?_⟩
+  · simp [mkMap, len, hl, mapIdxSpec_length]
+  · intro i; simp only [mkMap, get, hl]; exact key i
+  · intro i
+    simp only [mkMap, getLazy, hl]
+    rw [key i]
+    by_cases hi : i ≥ xs.length
+    · simp only [hi, ↓reduceIte]; rw [specGet_ge]; rw [mapIdxSpec_length]; exact hi
+    · simp only [hi, ↓reduceIte]
+      have hi' : i < (mapIdxSpec wi 0 xs).length := by rw [mapIdxSpec_length]; omega
+      rw [specGet_lt hi']; rfl
+  · intro hc; simp [mkMap, isCheap] at hc
 
 /-! #### filter -/
 
@@ -309,6 +380,113 @@ theorem good_filter {v : View} {xs : List Int} (h : Good v xs) :
     Good (mkFilter v) (xs.filter filtP) := by
   unfold mkFilter
   rw [materialize_good h]
-  exact good_vec _
+  exact good_vec _ _
+
+/-! #### makeArray -/
+
+theorem newExclusive_pos (n : Nat) (hn : 0 < n) : newExclusive 0 n = .range 0 ((n : Int) - 1) := by
+  unfold newExclusive
+  have : ¬ ((n : Int) - 1 < -(2 ^ 31 : Int)) := by omega
+  simp only [this, ↓reduceIte]
+
+theorem mapIdx_range (n : Nat) (hn : 0 < n) :
+    mapIdxSpec false 0 (rangeSpec 0 ((n : Int) - 1)) = makeArraySpec n none := by
+  apply List.ext_getElem?
+  intro i
+  rw [mapIdxSpec_getElem?]
+  have e : ((n : Int) - 1 - 0 + 1).toNat = n := by omega
+  simp only [rangeSpec, makeArraySpec, e, List.getElem?_map, List.getElem?_range]
+  by_cases hi : i < n
+  · simp [hi, mapF]
+  · simp [hi]
+
+theorem good_makeArray (n : Nat) (hn : n < 2 ^ 31) (triv : Option Int) :
+    ∃ v, mkMakeArray n triv = some v ∧ Good v (makeArraySpec n triv) := by
+  unfold mkMakeArray
+  have h1 : ¬ ((n : Int) < 0 ∨ (n : Int) > 2 ^ 31 - 1) := by omega
+  simp only [h1, ↓reduceIte]
+  by_cases h0 : (n : Int) = 0
+  · simp only [h0, ↓reduceIte]
+    have : n = 0 := by omega
+    subst this
+    refine ⟨_, rfl, ?_⟩
+    cases triv <;> simpa [makeArraySpec] using good_empty
+  · simp only [h0, ↓reduceIte]
+    have hpos : 0 < n := by omega
+    cases triv with
+    | none =>
+      refine ⟨_, rfl, ?_⟩
+      rw [newExclusive_pos n hpos, ← mapIdx_range n hpos]
+      exact good_map (good_range_dom 0 ((n : Int) - 1) (by unfold I32; omega) (by unfold I32; omega)
+        (by omega)) false
+    | some c =>
+      refine ⟨_, rfl, ?_⟩
+      simpa [makeArraySpec] using good_vec (List.replicate n c) true
+
+/-! #### the domain of `RangeArray::len` and its callers -/
+
+/-- C08 (3): with `i32` ends, the wrapping `RangeArray::len` is the true length of `start..=end`
+    exactly when `start ≤ end + 1` -/
+theorem rangeLen_exact_iff (s e : Int) (hs : I32 s) (he : I32 e) :
+    rangeLen s e = (rangeSpec s e).length ↔ s ≤ e + 1 := by
+  obtain ⟨hs1, hs2⟩ := hs; obtain ⟨he1, he2⟩ := he
+  simp only [rangeLen, rangeSpec, List.length_map, List.length_range]
+  constructor
+  · intro h
+    by_cases hc : s ≤ e + 1
+    · exact hc
+    · exfalso
+      have h0 : (e - s + 1).toNat = 0 := by omega
+      rw [h0] at h
+      have : (e - s + 1) % (2 ^ 64 : Int) = e - s + 1 + 2 ^ 64 := by
+        rw [← Int.add_emod_right]
+        exact Int.emod_eq_of_lt (by omega) (by omega)
+      rw [this] at h; omega
+  · intro h
+    rw [Int.emod_eq_of_lt (by omega) (by omega)]
+
+theorem rangeDom_empty : RangeDom emptyView := by
+  simp only [emptyView, RangeDom, I32]; omega
+
+theorem rangeDom_mkRange (a b : Int) (ha : I32 a) (hb : I32 b) : RangeDom (mkRange a b) := by
+  unfold mkRange; split
+  · exact rangeDom_empty
+  · exact ⟨ha, hb, by omega⟩
+
+theorem rangeDom_mkSlice {v : View} (h : RangeDom v) (s e : Option Int) (st : Option Nat) :
+    RangeDom (mkSlice v s e st) := by
+  simp only [mkSlice]; split
+  · exact rangeDom_empty
+  · exact h
+
+theorem rangeDom_mkExt {a b : View} (ha : RangeDom a) (hb : RangeDom b) : RangeDom (mkExt a b) := by
+  unfold mkExt
+  split
+  · exact hb
+  · split
+    · exact ha
+    · split
+      · exact ⟨ha, hb⟩
+      · split
+        · split <;> trivial
+        · split <;> trivial
+
+theorem rangeDom_mkFilter (v : View) : RangeDom (mkFilter v) := by
+  unfold mkFilter; split <;> trivial
+
+theorem rangeDom_makeArray (n : Nat) (hn : n < 2 ^ 31) (triv : Option Int) (v : View)
+    (h : mkMakeArray n triv = some v) : RangeDom v := by
+  unfold mkMakeArray at h
+  have h1 : ¬ ((n : Int) < 0 ∨ (n : Int) > 2 ^ 31 - 1) := by omega
+  simp only [h1, ↓reduceIte] at h
+  by_cases h0 : (n : Int) = 0
+  · simp only [h0, ↓reduceIte, Option.some.injEq] at h; subst h; exact rangeDom_empty
+  · simp only [h0, ↓reduceIte] at h
+    cases triv with
+    | none =>
+      simp only [Option.some.injEq] at h; subst h
+      rw [newExclusive_pos n (by omega)]
+      simp only [mkMap, RangeDom, I32]; omega
+    | some c => simp only [Option.some.injEq] at h; subst h; trivial
 
 end JrsVerif.Arr
